@@ -22,7 +22,7 @@ inline std::string pick_name(Entropy &e, int value_id) {
     static const char *by_id[8][8] = {
         {"a", "b", "z", "d", "s", "n", "t", "ns"}, {"0", "1", "2", "3", "0", "1", "2", "9"},       {"0", "1", "2", "0[g]", "1[v]", "2[g]", "0[v]", "5"},
         {"o", "l", "o[x]", "o[y]", "l[0]", "o[x][1]", "l[2]", "o[q]"}, {"a", "b", "c", "arr", "arr[0]", "arr[1]", "arr[2]", "x"}, {"eo", "ea", "eo[a]", "ea[0]", "eo", "ea", "q", "w"},
-        {"k1", "k2", "k<", "k1[0]", "k<[in]", "k2[0]", "k9", "k1[5]"},  {"a", "b", "c", "d", "0", "a[0]", "e", "f"}};
+        {"k1", "k2", "k<", "k1[0]", "k<[in]", "]", "a[]", "a[][]"},  {"a", "b", "c", "d", "0", "a[0]", "e", "f"}};
     return by_id[value_id & 7][e.below(8)];
 }
 
